@@ -42,7 +42,7 @@ def run(tier, seed, replay=None):
     for r, c in zip(res, cases):
         if not isinstance(r, dict) or "events" not in r:
             what = "noreturn" if isinstance(r, dict) and r.get("__noreturn__") else "raise"
-            r = {"A": c["A"], "b": c["b"], "c": c["c"], "m": len(c["b"]), "n": len(c["c"]), "input": c, "events": [{"e": what, "solver": "worker", "what": "WorkerCrash"}]}
+            r = {"A": c["A"], "b": c["b"], "c": c["c"], "m": len(c["b"]), "n": len(c["c"]), "cden": c.get("cden", 1), "input": c, "events": [{"e": what, "solver": "worker", "what": "WorkerCrash"}]}
         trs.append(r)
     vs = ck.validate(DIR, "LpTrace", trs, "solve_lp and solve_lp_interior, minimize and maximize", timeout=3000)
     ck.classify(trs, vs, nontrivial=lambda t, v: t["m"] * t["n"] >= 2)
